@@ -403,7 +403,7 @@ def random_description(rng, kind, idx, tangent_only=False):
     hyps = supported_hyps(kind, p.get("brick", False))
     k = 2 if rng.random() < 0.6 else 1
     # rotate through the hypotheses so that a handful of programs covers them all
-    first = hyps[idx % len(hyps)]
+    first = hyps[(idx + 2 * KINDS.index(kind)) % len(hyps)]
     sel = [first] + rng.sample([h for h in hyps if h != first], k - 1)
     p["hyps"] = sorted(sel, key=hyps.index)
     # constants: baked in the source or material properties
@@ -616,6 +616,12 @@ def construct(prog, raw, fd_margin=False, smax=None):
             sigT[axis] = keep
         if abs(seq_of(sigT) - kappa * R0) > 1e-6 * R0:
             return None   # the axial stress alone exceeds the target
+    if kind == "implicit_plasticity" and not prog.get("predictor"):
+        # same restriction on the actual tensors (the imposed axial stress enters both deviators)
+        a, c = dev(sig0), dev(sigT)
+        na, nc = float(np.linalg.norm(a)), float(np.linalg.norm(c))
+        if na > 0.02 * R0 and float(np.dot(a, c)) < 0.3 * na * nc:
+            return None
     deto = compliance(young, nu, sigT - sig0) / theta
     if axis is not None:
         deto[axis] = 0.0
